@@ -583,8 +583,10 @@ pub fn rand_bytes(rng: &mut ChaCha8Rng, n: usize) -> Vec<u8> {
     v
 }
 
-/// Characters `str::trim` removes (Unicode White_Space).
-pub const WS_CHARS: &[char] = &[' ', '\t', '\n', '\r', '\u{0b}', '\u{0c}', '\u{85}', '\u{a0}', '\u{2003}', '\u{2028}', '\u{3000}'];
+/// The whitespace of copy-paste accidents: a string surrounded by these must parse as the string itself.
+pub const WS_CHARS: &[char] = &[' ', '\t', '\n', '\r'];
+/// Rarer Unicode White_Space characters: used only where no verdict is predicted.
+pub const EXOTIC_WS: &[char] = &['\u{0b}', '\u{0c}', '\u{85}', '\u{a0}', '\u{2003}', '\u{2028}', '\u{3000}'];
 
 pub fn rand_ws(rng: &mut ChaCha8Rng) -> String {
     let n = rng.gen_range(1..=3);
